@@ -305,6 +305,12 @@ def bi_max_default(xs):
 def bi_min_args(xs):
     return min(*xs)
 
+def bi_minmax_ties(xs):
+    # equal but distinguishable maxima / minima (1, 1.0, True; 0.0, -0.0): the first one wins
+    a, b, c = (xs + [0, 0, 0])[:3]
+    return (max(a, b), min(a, b), max(b, a), min(b, a), max(a, b, c), min(a, b, c), max(c, b, a), min(c, b, a),
+            max([a, b]), min((a, b, c)), max(a, b, key=abs), min(a, b, c, key=lambda v: -v))
+
 def bi_sorted_rev(xs):
     return sorted(xs, reverse=True), list(reversed(xs))
 
@@ -381,7 +387,8 @@ def bi_list_remove(xs):
     return ys
 '''
 
-INPUTS = [[], [1], [1, 2], [1, 2, 3], [0], [0, 2], [2, 1, 0, 3]]
+INPUTS = [[], [1], [1, 2], [1, 2, 3], [0], [0, 2], [2, 1, 0, 3],
+          [1, 1.0], [1.0, 1, True], [True, 1.0, 1], [0.0, -0.0, 0], [-0.0, 0.0, False]]
 
 WORKER = r'''
 import sys, json, types, signal
